@@ -90,7 +90,7 @@ template<class T> static Spec spec_fft(const base_array<T>& h) {
     s.corr = std::string("frameF ") + (cx ? "fftC " : "fftR ") + toks(h);
     s.win = TW<T>::W;
     s.mem = FftFilter(h).block_size();
-    s.fineq = s.mem / 5 + 1; s.cstride = -1;
+    s.fineq = 2; s.cstride = -1;   // > 1: the fine enumeration uses coarse granules spanning ~3.4 blocks (see sweep)
     s.make = [h]() {
         auto f = std::make_shared<FftFilter>(h);
         return Inst{[f](const double* p, int n, VD& o) { put<T>(o, f->process(mk<T>(p, n))); }, nullptr};
@@ -452,7 +452,8 @@ static void compositions(vh::Rng& r, const Spec& s, int k, int q, int ncorr) {
             else cur += unit;
         }
         sizes.push_back(cur);
-        emit_corr(s, in, sizes, whole.y);
+        const RunRes fr = run_frames(s, in, sizes);   // what the implementation returns for THIS framing
+        if (!fr.threw) emit_corr(s, in, sizes, fr.y);
     }
     vh::clear_current();
 }
@@ -495,7 +496,10 @@ static void random_framings(vh::Rng& r, const Spec& s, int ngran, int reps, bool
         const std::vector<int> sizes = random_framing(r, s, ngran);
         frame_stats(sizes, s.gran);
         check_framing(s, in, whole, sizes, "random");
-        if (corr && c == 0 && !whole.threw) emit_corr(s, in, sizes, whole.y);
+        if (corr && c == 0 && !whole.threw) {
+            const RunRes fr = run_frames(s, in, sizes);
+            if (!fr.threw) emit_corr(s, in, sizes, fr.y);
+        }
     }
     out.stat("random_" + s.proc, reps);
     out.stat("random_stream_items", nitems);
@@ -632,7 +636,10 @@ static void sweep(vh::Rng& r, const Spec& s, bool allk = true) {
     if (s.fineq == 1) {
         for (int k = 1; k < K; ++k) compositions(r, s, k, 1, 0);
     }
-    compositions(r, s, K, s.fineq, corr_ok ? 1 : 0);
+    // FftFilter: granules of a fraction of the block so that the K granules span ~3.4 blocks (the overlap of a block
+    // reaches the output two blocks later)
+    const int fq = s.fineq == 1 ? 1 : (34 * s.mem / 10) / K + 1;
+    compositions(r, s, K, fq, corr_ok ? 1 : 0);
     // coarse scale: 8 chunks spanning ~2.5x the memory of the processor
     const int qb = (5 * s.mem + 15) / 16;
     if (qb > 1 && s.fineq == 1) compositions(r, s, 8, qb, (corr_ok && (long long)qb * 8 * s.gran * s.mem <= 400000) ? 2 : 0);
@@ -657,7 +664,7 @@ int main(int argc, char** argv) {
 
     // ---------------- FIR filters: lengths 2..300
     for (int nh = 2; nh <= 300; ++nh) {
-        if (!(TH || is_edge(nh) || (nh + sd) % 23 == 0)) continue;
+        if (!(TH || is_edge(nh) || (nh + sd) % 9 == 0)) continue;
         sweep(rng, spec_fir<real_t>(taps_real(rng, nh)));
         sweep(rng, spec_fir<cmplx_t>(taps_cmplx(rng, nh)));
         const bool full = (nh + sd) % 6 == 0 || nh <= 8;
@@ -666,7 +673,7 @@ int main(int argc, char** argv) {
     }
     // ---------------- moving average, delay: lengths 1..300
     for (int n = 1; n <= 300; ++n) {
-        if (!(TH || n == 1 || is_edge(n) || (n + sd) % 29 == 0)) continue;
+        if (!(TH || n == 1 || is_edge(n) || (n + sd) % 11 == 0)) continue;
         sweep(rng, spec_ma<real_t>(n));
         sweep(rng, spec_ma<cmplx_t>(n));
         sweep(rng, spec_delay<real_t>(n));
@@ -681,11 +688,11 @@ int main(int argc, char** argv) {
     }
     // ---------------- Hilbert filter: explicit type-3 taps and the default design
     for (int nh = 3; nh <= 301; nh += 2) {
-        if (!(TH || nh <= 9 || is_edge(nh) || is_edge(nh - 1) || (nh + sd) % 31 == 0)) continue;
+        if (!(TH || nh <= 9 || is_edge(nh) || is_edge(nh - 1) || (nh + sd) % 13 == 0)) continue;
         sweep(rng, spec_hilbert(0, taps_type3(rng, nh), 0, 0));
     }
     for (int flen = 3; flen <= 301; ++flen) {
-        if (!(TH ? (flen % 2 == 1 || flen % 10 == 0) : (flen == 3 || flen == 4 || flen == 51 || flen == 100 || flen == 301 || (flen + sd) % 41 == 0))) continue;
+        if (!(TH ? (flen % 2 == 1 || flen % 10 == 0) : (flen == 3 || flen == 4 || flen == 51 || flen == 100 || flen == 301 || (flen + sd) % 17 == 0))) continue;
         try {
             sweep(rng, spec_hilbert(1, arr_real(), flen, (flen % 3 == 0) ? 0.05 : 0.01));
         } catch (const std::exception& e) { out.stat("hilbert_default_ctor_threw"); }
@@ -712,7 +719,7 @@ int main(int argc, char** argv) {
         for (auto [L, M] : pairs) {
             ++idx;
             const bool big = L > 12 || M > 12;
-            if (!(TH || big || (L <= 4 && M <= 4) || (idx + sd) % 7 == 0)) continue;
+            if (!(TH || big || (L <= 4 && M <= 4) || (idx + sd) % 3 == 0)) continue;
             const int mx = std::max(L, M);
             // custom taps: lengths not a multiple of the branch count included (zero padding inside polyphase)
             const int nh1 = big ? mx * rng.range(3, 6) + rng.range(0, mx - 1) : std::max(1, mx * rng.range(1, 8) + rng.range(-1, mx - 1));
@@ -738,7 +745,7 @@ int main(int argc, char** argv) {
                 sweep(rng, spec_agc<cmplx_t>(rnd_agc(rng, n)));
             }
         }
-        const int nd = TH ? 60 : 10;
+        const int nd = TH ? 60 : 20;
         for (int i = 0; i < nd; ++i)
             for (int kind = 0; kind < 3; ++kind) sweep(rng, spec_dyn(kind, rnd_dyn(rng)));
     }
@@ -750,7 +757,7 @@ int main(int argc, char** argv) {
             sweep(rng, spec_rls<cmplx_t>(1, 0.97, 2.0));
             continue;
         }
-        if (!(TH || len <= 5 || is_edge(len) || (len + sd) % 5 == 0)) continue;
+        if (!(TH || len <= 5 || is_edge(len) || (len + sd) % 2 == 0)) continue;
         const double mu_l = 0.05 / len, mu_n = 0.1 + 1.2 * rng.unit();
         const double leak = (len % 3 == 0) ? 0.999 : 1.0;
         sweep(rng, spec_lms<real_t>(len, mu_l, false, leak));
@@ -802,7 +809,7 @@ int main(int argc, char** argv) {
             }
         };
         const int NK = 28;
-        const int reps = TH ? 10 : 2;
+        const int reps = TH ? 10 : 3;
         for (int rep = 0; rep < reps; ++rep) {
             for (int w = 0; w < NK; ++w) {
                 const Spec s = rnd_spec(w);
@@ -822,7 +829,7 @@ int main(int argc, char** argv) {
         }
         // interleaved instances: same type with different parameters, and mixed types (FFT based filters of different
         // sizes share the per-thread plan cache; AGCs hold their state behind a shared_ptr)
-        const int ngroups = TH ? 120 : 24;
+        const int ngroups = TH ? 120 : 40;
         for (int g = 0; g < ngroups; ++g) {
             std::vector<Spec> grp;
             const int n = rng.range(2, 4);
